@@ -162,6 +162,69 @@ def examined (o n : CNetlist) : View :=
     lib := fun nm => (byName (·.name) nm n.libs).map (libView n (byName (·.name) nm o.libs)),
     top := n.top.map (instView n (o.top.bind (·.props))) }
 
+/-! ## The view restricted to the ORIGINAL's named elements ("among named elements")
+
+  `examinedN o n` answers only at names the original `o` uses (an unnamed element of the original is
+  never compared, so whatever the copy has in its place — named or not — is not examined); counts are
+  still total.  For a fully named original with unique names `examined` is the stronger statement. -/
+
+def guardBy {α β : Type} (o : Option α) (x : Option β) : Option β :=
+  match o with
+  | none => none
+  | some _ => x
+
+def defViewN (n : CNetlist) (od : Option CDef) (d : CDef) : DefView :=
+  { nPorts := d.ports.length, nCables := d.cables.length, nInsts := d.insts.length,
+    port := fun nm => guardBy (od.bind fun o => byName (·.name) nm o.ports) ((byName (·.name) nm d.ports).map portView),
+    cable := fun nm => guardBy (od.bind fun o => byName (·.name) nm o.cables) ((byName (·.name) nm d.cables).map (cableView n d)),
+    inst := fun nm => guardBy (od.bind fun o => byName (·.name) nm o.insts)
+      ((byName (·.name) nm d.insts).map (instView n (origInstProps od nm))) }
+
+def libViewN (n : CNetlist) (ol : Option CLib) (l : CLib) : LibView :=
+  { nDefs := l.defs.length,
+    defn := fun nm => guardBy (origDef ol nm) ((byName (·.name) nm l.defs).map (defViewN n (origDef ol nm))) }
+
+def examinedN (o n : CNetlist) : View :=
+  { nLibs := n.libs.length,
+    lib := fun nm => guardBy (byName (·.name) nm o.libs)
+      ((byName (·.name) nm n.libs).map (libViewN n (byName (·.name) nm o.libs))),
+    top := n.top.map (instView n (o.top.bind (·.props))) }
+
+/-! ## Identifiers: what the comparer checks besides the examined attributes
+
+  names are the keys; the remaining identifier fields are the netlist's name, the top instance's
+  name and every element's `EDIF.original_identifier`. -/
+
+structure DefIds where
+  origId : Option String
+  port   : String → Option (Option String)
+  cable  : String → Option (Option String)
+  inst   : String → Option (Option String)
+
+structure LibIds where
+  origId : Option String
+  defn   : String → Option DefIds
+
+structure Ids where
+  name    : Option String
+  origId  : Option String
+  topName : Option (Option String)
+  topOrig : Option (Option String)
+  lib     : String → Option LibIds
+
+def defIds (d : CDef) : DefIds :=
+  { origId := d.origId,
+    port := fun nm => (byName (·.name) nm d.ports).map (·.origId),
+    cable := fun nm => (byName (·.name) nm d.cables).map (·.origId),
+    inst := fun nm => (byName (·.name) nm d.insts).map (·.origId) }
+
+def libIds (l : CLib) : LibIds :=
+  { origId := l.origId, defn := fun nm => (byName (·.name) nm l.defs).map defIds }
+
+def idents (n : CNetlist) : Ids :=
+  { name := n.name, origId := n.origId, topName := n.top.map (·.name), topOrig := n.top.map (·.origId),
+    lib := fun nm => (byName (·.name) nm n.libs).map libIds }
+
 /-! ## Hypotheses of the theorems (all decidable; the driver evaluates the `…B` forms) -/
 
 def allNamed {α : Type} (name : α → Option String) (l : List α) : Bool := l.all fun x => (name x).isSome
@@ -197,6 +260,24 @@ def noAssignB (n : CNetlist) : Bool :=
 def NoAssign (n : CNetlist) : Prop := noAssignB n = true
 instance (n : CNetlist) : Decidable (NoAssign n) := by unfold NoAssign; infer_instance
 
+def splitUnderscore (cs : List Char) : List (List Char) :=
+  cs.foldr (fun c acc => if c = '_' then [] :: acc else
+    match acc with
+    | [] => [[c]]
+    | h :: t => (c :: h) :: t) [[]]
+
+/-- instances that follow the `SDN_Assignment_` naming convention carry a fourth `_`-separated token
+    (`SDN_Assignment_<width>_<k>`): the comparer reads `name.split("_")[3]` of every such instance.
+    Weaker than `NoAssign`. -/
+def assignOkB (n : CNetlist) : Bool :=
+  n.libs.all fun l => l.defs.all fun d => d.insts.all fun i =>
+    match i.name with
+    | none => true
+    | some nm => !startsWithAssign nm || ((splitUnderscore nm.toList)[3]?).isSome
+
+def AssignOK (n : CNetlist) : Prop := assignOkB n = true
+instance (n : CNetlist) : Decidable (AssignOK n) := by unfold AssignOK; infer_instance
+
 def keysNodupB (p : Option (List Dict)) : Bool :=
   match p with
   | none => true
@@ -223,17 +304,17 @@ def refOK (n : CNetlist) : CRef → Bool
     | some L => (L.defs[di]?).isSome
   | _ => false
 
-/-- well-formed, self-contained: ports have at least one pin (the comparer's own "DRC"), every
-    instance references a definition of this netlist, every pin on a wire is placed, property
-    dictionaries have unique keys (they are Python dicts) -/
+/-- well-formed as far as a comparison can notice: every pin listed by a wire is placed (it is a pin of
+    a port of the definition, or of a port of the definition a child instance references), and the
+    property dictionaries have unique keys (they are Python dicts).  Nothing is required of port widths
+    (a port may have no pins) or of references of unconnected instances. -/
 def wfB (n : CNetlist) : Bool :=
   (n.libs.all fun l => l.defs.all fun d =>
-    (d.ports.all fun p => decide (0 < p.width)) &&
-    (d.insts.all fun i => refOK n i.ref && keysNodupB i.props) &&
+    (d.insts.all fun i => keysNodupB i.props) &&
     (d.cables.all fun c => c.wires.all fun w => w.all (pinOK n d))) &&
   (match n.top with
    | none => true
-   | some t => refOK n t.ref && keysNodupB t.props)
+   | some t => keysNodupB t.props)
 
 def WF (n : CNetlist) : Prop := wfB n = true
 instance (n : CNetlist) : Decidable (WF n) := by unfold WF; infer_instance
@@ -280,5 +361,59 @@ def examinedEqB (o a b : CNetlist) : Bool :=
   ((namesOf (·.name) a.libs ++ namesOf (·.name) b.libs).all fun nm =>
     optAgree (fun la lb => libAgreeB a b (byName (·.name) nm o.libs) (byName (·.name) nm o.libs) la lb)
       (byName (·.name) nm a.libs) (byName (·.name) nm b.libs))
+
+/-! ## Executable decisions of `examinedN o a = examinedN o b` and `idents a = idents b` -/
+
+def defAgreeNB (a b : CNetlist) (od : Option CDef) (da db : CDef) : Bool :=
+  da.ports.length == db.ports.length && da.cables.length == db.cables.length &&
+  da.insts.length == db.insts.length &&
+  (match od with
+   | none => true
+   | some o =>
+     ((namesOf (·.name) o.ports).all fun nm =>
+       decide ((byName (·.name) nm da.ports).map portView = (byName (·.name) nm db.ports).map portView)) &&
+     ((namesOf (·.name) o.cables).all fun nm =>
+       decide ((byName (·.name) nm da.cables).map (cableView a da) = (byName (·.name) nm db.cables).map (cableView b db))) &&
+     ((namesOf (·.name) o.insts).all fun nm =>
+       decide ((byName (·.name) nm da.insts).map (instView a (origInstProps od nm))
+             = (byName (·.name) nm db.insts).map (instView b (origInstProps od nm)))))
+
+def libAgreeNB (a b : CNetlist) (ol : Option CLib) (la lb : CLib) : Bool :=
+  la.defs.length == lb.defs.length &&
+  (match ol with
+   | none => true
+   | some o =>
+     (namesOf (·.name) o.defs).all fun nm =>
+       optAgree (fun da db => defAgreeNB a b (origDef ol nm) da db)
+         (byName (·.name) nm la.defs) (byName (·.name) nm lb.defs))
+
+/-- decides `examinedN o a = examinedN o b` (see `examinedNEqB_spec`) -/
+def examinedNEqB (o a b : CNetlist) : Bool :=
+  a.libs.length == b.libs.length &&
+  decide (a.top.map (instView a (o.top.bind (·.props))) = b.top.map (instView b (o.top.bind (·.props)))) &&
+  ((namesOf (·.name) o.libs).all fun nm =>
+    optAgree (fun la lb => libAgreeNB a b (byName (·.name) nm o.libs) la lb)
+      (byName (·.name) nm a.libs) (byName (·.name) nm b.libs))
+
+def defIdsEqB (da db : CDef) : Bool :=
+  decide (da.origId = db.origId) &&
+  ((namesOf (·.name) da.ports ++ namesOf (·.name) db.ports).all fun nm =>
+    decide ((byName (·.name) nm da.ports).map (·.origId) = (byName (·.name) nm db.ports).map (·.origId))) &&
+  ((namesOf (·.name) da.cables ++ namesOf (·.name) db.cables).all fun nm =>
+    decide ((byName (·.name) nm da.cables).map (·.origId) = (byName (·.name) nm db.cables).map (·.origId))) &&
+  ((namesOf (·.name) da.insts ++ namesOf (·.name) db.insts).all fun nm =>
+    decide ((byName (·.name) nm da.insts).map (·.origId) = (byName (·.name) nm db.insts).map (·.origId)))
+
+def libIdsEqB (la lb : CLib) : Bool :=
+  decide (la.origId = lb.origId) &&
+  ((namesOf (·.name) la.defs ++ namesOf (·.name) lb.defs).all fun nm =>
+    optAgree defIdsEqB (byName (·.name) nm la.defs) (byName (·.name) nm lb.defs))
+
+/-- decides `idents a = idents b` (see `identsEqB_spec`) -/
+def identsEqB (a b : CNetlist) : Bool :=
+  decide (a.name = b.name) && decide (a.origId = b.origId) &&
+  decide (a.top.map (·.name) = b.top.map (·.name)) && decide (a.top.map (·.origId) = b.top.map (·.origId)) &&
+  ((namesOf (·.name) a.libs ++ namesOf (·.name) b.libs).all fun nm =>
+    optAgree libIdsEqB (byName (·.name) nm a.libs) (byName (·.name) nm b.libs))
 
 end Spydr.Compare
